@@ -15,6 +15,7 @@ CFG = dict(
     rigs=[dict(test="TestC09", timeout_quick=300, timeout_thorough=900),
           dict(test="TestC09Errors", timeout_quick=200, timeout_thorough=400),
           dict(test="TestC09MuxClose", timeout_quick=200, timeout_thorough=300),
+          dict(test="TestC09WriteStall", timeout_quick=200, timeout_thorough=300),
           dict(test="TestC09Storm", timeout_quick=300, timeout_thorough=900)],
     reason_text={"12": "stuck read loop: the read failure was injected, every stream of the scenario is gone, yet at a quiescent point the multiplexer's read loop is still alive: it never notices the transport closing and every call waiting for a reply waits for ever",
                  "11": "wedged: the scenario could not be run to its end - a goroutine of the client waits for a lock for ever; every call behind that lock hangs, also after the connection has failed",
